@@ -315,8 +315,42 @@ class SegmentAnalysis:
         return [s for s in out if not s.dead and not s.d.bottom]
 
     def exec_assign(self, st, l, rv, bb, si):
+        tf = self.za.tuple_fields
+        if l in tf:
+            # tuple of integers: one pseudo-variable per component
+            if rv["k"] == "agg" and (not rv.get("adt") or rv.get("adt") == getattr(self.za, "struct_locals", {}).get(l)):
+                for i in tf[l]:
+                    x = "_%d.%d" % (l, i)
+                    o = self.opnd_term(rv["fields"][i]) if i < len(rv["fields"]) else None
+                    st.forget_var(x)
+                    if o and o[0] == "Z":
+                        st.d.assign_const(x, o[1])
+                    elif o:
+                        st.d.assign_var_plus(x, o[0], o[1])
+                    else:
+                        st.d.havoc_unsigned(x)
+                return
+            if rv["k"] == "use" and rv["a"]["k"] in ("move", "copy") and not rv["a"]["pl"]["p"] and rv["a"]["pl"]["l"] in tf:
+                src = rv["a"]["pl"]["l"]
+                for i in tf[l]:
+                    x = "_%d.%d" % (l, i)
+                    st.forget_var(x)
+                    if i in tf[src]:
+                        st.d.assign_var_plus(x, "_%d.%d" % (src, i), 0)
+                    else:
+                        st.d.havoc_unsigned(x)
+                return
+            for i in tf[l]:
+                st.forget_var("_%d.%d" % (l, i))
+                st.d.havoc_unsigned("_%d.%d" % (l, i))
+            return
         if l in self.int_locals:
             x = self.name(l)
+            if rv["k"] == "use" and rv["a"]["k"] in ("copy", "move") and len(rv["a"]["pl"]["p"]) == 1 and \
+                    isinstance(rv["a"]["pl"]["p"][0], dict) and rv["a"]["pl"]["l"] in tf and rv["a"]["pl"]["p"][0].get("field") in tf[rv["a"]["pl"]["l"]]:
+                st.forget_var(x)
+                st.d.assign_var_plus(x, "_%d.%d" % (rv["a"]["pl"]["l"], rv["a"]["pl"]["p"][0]["field"]), 0)
+                return
             if rv["k"] == "use":
                 a = rv["a"]
                 if a["k"] == "const" and "int" in a["c"]:
@@ -610,9 +644,45 @@ class SegmentAnalysis:
                 break
         return states
 
+    def static_refs(self):
+        """references that are fixed for the whole body: single-assignment locals holding `&local` (or a copy / reborrow of such
+        a reference) – e.g. a `&pivot` parameter of an inlined helper – keep pointing at that local at every cut point"""
+        if getattr(self, "_static_refs", None) is not None:
+            return self._static_refs
+        b = self.b
+        defs = {}
+        for bb in b.live_blocks():
+            for s_ in b.blocks[bb]["stmts"]:
+                if s_["k"] == "assign" and not s_["dst"]["p"]:
+                    defs.setdefault(s_["dst"]["l"], []).append(s_["rv"])
+            t = b.blocks[bb]["term"]
+            if t["k"] == "call" and not t["dst"]["p"]:
+                defs.setdefault(t["dst"]["l"], []).append({"k": "call"})
+        out = {}
+        changed = True
+        while changed:
+            changed = False
+            for l, rvs in defs.items():
+                if l in out or len(rvs) != 1:
+                    continue
+                rv = rvs[0]
+                tgt = None
+                if rv["k"] == "ref" and not rv["pl"]["p"] and len(defs.get(rv["pl"]["l"], [])) <= 1:
+                    tgt = rv["pl"]["l"]
+                elif rv["k"] in ("ref", "use"):
+                    pl = rv["pl"] if rv["k"] == "ref" else rv["a"].get("pl")
+                    if pl is not None and pl["l"] in out and all(x == "deref" for x in pl["p"]):
+                        tgt = out[pl["l"]]
+                if tgt is not None:
+                    out[l] = tgt
+                    changed = True
+        self._static_refs = out
+        return out
+
     def initial_state(self, cut, facts):
         d = self.za.states[cut].copy() if cut in self.za.states else DBM(self.za.vars)
         st = State(d, [f for f in facts if f[0] in ("seg", "pt")])
+        st.refto = dict(self.static_refs())
         st.guarded = {(f[1], f[2]) for f in facts if f[0] == "if"}
         st.promote()
         return st
@@ -663,7 +733,11 @@ class SegmentAnalysis:
 def show_term(t, sa):
     v = {"Z": "", "N": "len"}.get(t[0])
     if v is None:
-        v = sa.b.local_name(int(t[0][1:])) or t[0]
+        if "." in t[0]:
+            l_, f_ = t[0][1:].split(".")
+            v = "%s.%s" % (sa.b.local_name(int(l_)) or ("_" + l_), f_)
+        else:
+            v = sa.b.local_name(int(t[0][1:])) or t[0]
     if t[1] == 0:
         return v or "0"
     if not v:
